@@ -47,7 +47,7 @@ func vfBindable(proto, addr string, within time.Duration) error {
 }
 
 func TestVfC18RunReleases(t *testing.T) {
-	st := vfkit.Stats("TestVfC18RunReleases", "in-process run() with 1-6 listeners of generated kinds and an optional metrics endpoint, where listener i cannot bind (address held by the harness), or an upstream / domain set / rule is broken, or nothing fails; oracles: a failed start returns an error (no panic) within 3 s and every address of the listeners before i and of the metrics endpoint can be bound again within 1 s; a successful start followed by close() (twice) releases every address within 1 s; non-trivial = failing listener is not the first, or the close case")
+	st := vfkit.Stats("TestVfC18RunReleases", "in-process run() with 1-6 listeners of generated kinds and an optional metrics endpoint, where listener i cannot start (address held by the harness, bad certificate material of 4 kinds, unknown protocol), or an upstream / domain set / rule is broken, or nothing fails; oracles: a failed start returns an error (no panic) within 3 s and every address of the listeners before i (and of listener i itself unless the harness holds it) and of the metrics endpoint can be bound again within 1 s; a successful start followed by close() (twice) releases every address within 1 s; non-trivial = failing listener is not the first, or the close case")
 	defer vfkit.Flush()
 	kinds := []string{"udp", "tcp", "gnet", "tls", "http", "fasthttp", "https", "quic"}
 	rapid.Check(t, func(t *rapid.T) {
@@ -88,8 +88,34 @@ func TestVfC18RunReleases(t *testing.T) {
 				cfg.Rules = append([]RuleConfig{{Forward: "no-such-upstream"}}, cfg.Rules...)
 			}
 		}
-		var held interface{ Close() error }
+		// why listener failIdx cannot start: its address is held, or (nothing held) its certificate material is bad, or its
+		// protocol is unknown - in the latter cases its own address must be free afterwards as well
+		failWhy := "addr-in-use"
 		if failIdx >= 0 {
+			failWhy = rapid.SampledFrom([]string{"addr-in-use", "addr-in-use", "bad-cert", "unknown-protocol"}).Draw(t, "failWhy")
+			sc := &cfg.Servers[failIdx]
+			if failWhy == "bad-cert" && !(sc.Protocol == "tls" || sc.Protocol == "https" || sc.Protocol == "quic") {
+				failWhy = "unknown-protocol"
+			}
+			switch failWhy {
+			case "bad-cert":
+				switch rapid.IntRange(0, 3).Draw(t, "badCert") {
+				case 0: // nothing configured
+					sc.Tls.DebugUseTempCert = false
+				case 1: // files that do not exist
+					sc.Tls.DebugUseTempCert = false
+					sc.Tls.Cert, sc.Tls.Key = "/nonexistent/vf-c18-cert.pem", "/nonexistent/vf-c18-key.pem"
+				case 2: // client verification without a CA
+					sc.Tls.VerifyClientCert = true
+				case 3: // unreadable CA
+					sc.Tls.CA = "/nonexistent/vf-c18-ca.pem"
+				}
+			case "unknown-protocol":
+				sc.Protocol = "vf-bogus"
+			}
+		}
+		var held interface{ Close() error }
+		if failIdx >= 0 && failWhy == "addr-in-use" {
 			a := addrs[failIdx]
 			var err error
 			if a.proto == "udp" {
@@ -144,16 +170,20 @@ func TestVfC18RunReleases(t *testing.T) {
 		} else if failIdx >= 0 {
 			if res.err == nil {
 				res.r.close(nil)
-				t.Fatalf("run() succeeded although %s was already bound", addrs[failIdx].addr)
+				t.Fatalf("run() succeeded although listener %d (%s) could not start: %s", failIdx, addrs[failIdx].addr, failWhy)
 			}
 			if cfg.Metrics.Addr != "" {
 				if err := vfBindable("tcp", cfg.Metrics.Addr, time.Second); err != nil {
 					t.Fatalf("the metrics endpoint %s is still bound 1 s after run() returned the error of listener %d: %v", cfg.Metrics.Addr, failIdx, err)
 				}
 			}
-			for i := 0; i < failIdx; i++ {
+			last := failIdx - 1
+			if failWhy != "addr-in-use" {
+				last = failIdx // nobody else holds the failing listener's address
+			}
+			for i := 0; i <= last; i++ {
 				if err := vfBindable(addrs[i].proto, addrs[i].addr, time.Second); err != nil {
-					t.Fatalf("listener %d (%s %s) that had started before listener %d failed is still bound 1 s after run() returned its error: %v", i, addrs[i].kind, addrs[i].addr, failIdx, err)
+					t.Fatalf("the address of listener %d (%s %s) is still bound 1 s after run() returned the error of listener %d (%s): %v", i, addrs[i].kind, addrs[i].addr, failIdx, failWhy, err)
 				}
 			}
 		} else {
@@ -188,7 +218,7 @@ func TestVfC18RunReleases(t *testing.T) {
 				}
 			}
 		}
-		st.Case(vfkit.Fingerprint(fmt.Sprint(addrs), failIdx, failStage, cfg.Metrics.Addr), failIdx != 0, []string{fmt.Sprintf("fail=%v", failIdx >= 0 || failStage != "none"), "stage=" + failStage, "ctx=" + ctxMode, fmt.Sprintf("metrics=%v", cfg.Metrics.Addr != "")}, func() any {
+		st.Case(vfkit.Fingerprint(fmt.Sprint(addrs), failIdx, failStage, cfg.Metrics.Addr), failIdx != 0, []string{fmt.Sprintf("fail=%v", failIdx >= 0 || failStage != "none"), "stage=" + failStage, "why=" + failWhy, "ctx=" + ctxMode, fmt.Sprintf("metrics=%v", cfg.Metrics.Addr != "")}, func() any {
 			return map[string]any{"listeners": fmt.Sprint(addrs), "failing_index": failIdx, "failing_stage": failStage, "metrics": cfg.Metrics.Addr}
 		})
 	})
